@@ -494,8 +494,8 @@ def run_part_d(report, tier):
 
     from ..common import NPROC, Violation
 
-    bound = 1 if tier == "quick" else 2
-    deadline = time.time() + (200 if tier == "quick" else 600)
+    bound = 1  # both tiers: the runner has two statements to order; one preemption between them is the whole question
+    deadline = time.time() + 600
     ctx = multiprocessing.get_context("fork")
     total = collections.Counter()
     outcomes = collections.Counter()
